@@ -10,6 +10,7 @@ import (
 	"path/filepath"
 	"sort"
 	"strings"
+	"testing/iotest"
 
 	"golang.org/x/crypto/openpgp"
 	"golang.org/x/crypto/openpgp/clearsign"
@@ -48,7 +49,7 @@ func (c11) Mandatory(tier string) []string {
 	return []string{"region:armor-header", "region:hash-header", "region:body", "region:signature-armor", "region:trailer", "edit:substitute", "edit:delete", "edit:insert", "edit:truncate",
 		"outcome:both-reject", "outcome:both-accept-equal", "untampered-accepted", "splice:foreign-before", "splice:foreign-before-blank", "splice:field-inside", "splice:text-before-signature",
 		"splice:text-after-end", "splice:foreign-block-before", "splice:foreign-block-after", "splice:duplicate-signature", "splice:hash-header", "keyring:signer", "keyring:signer+others",
-		"keyring:others", "keyring:empty", "keyring:nil-list", "entry:ParagraphReader", "entry:Decoder", "sequence:keyring-mutated-between-reads", "unsigned:no-signer"}
+		"keyring:others", "keyring:empty", "keyring:nil-list", "entry:ParagraphReader", "entry:Decoder", "sequence:keyring-mutated-between-reads", "unsigned:no-signer", "source:onebyte", "source:chunk7", "source:chunk14", "source:data+EOF", "source:os.Pipe"}
 }
 
 type c11Case struct {
@@ -100,9 +101,42 @@ func (p c11) run(c *core.C, cs c11Case) {
 		signer *openpgp.Entity
 		err    error
 	}
+	// how the bytes arrive varies from case to case: all at once, in pieces of 1, 7 or 14 bytes (shorter than the
+	// armor header line), with the last bytes together with io.EOF, or through the read end of a pipe (an *os.File
+	// whose Stat().Size() is 0)
+	srcKind := []string{"bytes.Reader", "bytes.Reader", "onebyte", "chunk7", "chunk14", "data+EOF", "os.Pipe"}[(len(cs.Input)+len(cs.Fault))%7]
+	var closers []io.Closer
+	defer func() {
+		for _, cl := range closers {
+			cl.Close()
+		}
+	}()
+	source := func() io.Reader {
+		switch srcKind {
+		case "onebyte":
+			return iotest.OneByteReader(bytes.NewReader(cs.Input))
+		case "chunk7":
+			return &fixedChunkReader{b: cs.Input, n: 7}
+		case "chunk14":
+			return &fixedChunkReader{b: cs.Input, n: 14}
+		case "data+EOF":
+			return iotest.DataErrReader(bytes.NewReader(cs.Input))
+		case "os.Pipe":
+			if len(cs.Input) <= 60000 { // fits the pipe buffer: no writer goroutine needed
+				if rd, wr, err := os.Pipe(); err == nil {
+					wr.Write(cs.Input)
+					wr.Close()
+					closers = append(closers, rd)
+					return rd
+				}
+			}
+		}
+		return bytes.NewReader(cs.Input)
+	}
+	c.Cover("source:" + srcKind)
 	readers := map[string]func() result{
 		"ParagraphReader": func() result {
-			pr, err := control.NewParagraphReader(bytes.NewReader(cs.Input), &keyring)
+			pr, err := control.NewParagraphReader(source(), &keyring)
 			if err != nil {
 				return result{err: err}
 			}
@@ -110,7 +144,7 @@ func (p c11) run(c *core.C, cs c11Case) {
 			return result{ok: err == nil, paras: ps, signer: pr.Signer(), err: err}
 		},
 		"Decoder": func() result {
-			dec, err := control.NewDecoder(bytes.NewReader(cs.Input), &keyring)
+			dec, err := control.NewDecoder(source(), &keyring)
 			if err != nil {
 				return result{err: err}
 			}
@@ -239,6 +273,22 @@ func (p c11) run(c *core.C, cs c11Case) {
 		}
 	}
 	c.Nontrivial()
+}
+
+// fixedChunkReader hands the input out n bytes at a time.
+type fixedChunkReader struct {
+	b []byte
+	n int
+}
+
+func (f *fixedChunkReader) Read(p []byte) (int, error) {
+	if len(f.b) == 0 {
+		return 0, io.EOF
+	}
+	k := min(f.n, min(len(p), len(f.b)))
+	copy(p, f.b[:k])
+	f.b = f.b[k:]
+	return k, nil
 }
 
 func (p c11) emit(t *core.T, cs c11Case, tags ...string) {
